@@ -96,6 +96,9 @@ type Def struct {
 	OmitDefaults bool `json:"omit_defaults,omitempty"`
 	// RA: the text carries +R_A (the sphere of the same surface area instead of the ellipsoid)
 	RA bool `json:"r_a,omitempty"`
+	// NullGridFirst: "+nadgrids=@null" is written BEFORE the +datum clause of a named datum. Options take effect in the
+	// order in which they are written: the datum named afterwards is the datum of the definition again.
+	NullGridFirst bool `json:"null_grid_first,omitempty"`
 }
 
 func f(v float64) string { return strconv.FormatFloat(v, 'f', -1, 64) } // no exponent: '+' separates PROJ.4 parameters
@@ -166,6 +169,9 @@ func (d Def) String() string {
 	}
 	switch d.DatumKind {
 	case "name":
+		if d.NullGridFirst {
+			w("+nadgrids=@null")
+		}
 		if len(d.Towgs) > 0 {
 			// a +towgs84 clause next to a named datum: the table entry of the name replaces it (as in proj4js)
 			s := make([]string, len(d.Towgs))
